@@ -186,6 +186,11 @@ def clobber_shape_suffix(srcs, signature="", clobber=None):
     (D5/D37) and nested loops (D39) explain clobbers inside one scope, a nested definition (D36) any.
     Only the functions in which the clobber was written / read are looked at, and of several shapes
     present there the first in SHAPE_PRECEDENCE names the signature."""
+    if "return-register-of-callee-inlined-into-called-function" in signature:
+        # this relation (second face of F-D23) is decided from the hook data and names its cause completely; a nested
+        # definition in the same function (F-D36's shape) does not make it another finding (met by C07's thorough tier:
+        # the inlined callee was itself a nested function)
+        return ""
     texts = list(srcs.values())
     if clobber and clobber.get("reader_scope") is not None:
         scopes = {clobber.get("reader_scope") or "", clobber.get("writer_scope") or ""}
